@@ -70,11 +70,27 @@ def getattr(I, st, v, name):
                 yield st, e.cls
                 return
             if name == "__dict__":
-                yield st, st.alloc(DictE(dict(e.attrs)))
+                yield st, ObjDict(v)  # live view of the instance attributes
                 return
             m, where = I.class_lookup(e.cls, name)
             from .values import PropertyVal
 
+            if st.ghost and (name not in e.attrs or _ghost_data_descriptor(I, st, e.cls, name)):
+                # a class attribute rebound at run time (Cls.attr = value) is what instances see, nearest class first
+                for c in I.mro(e.cls):
+                    if isinstance(c, ClassVal) and ("classattr", id(c.node), name) in st.ghost:
+                        gv = st.ghost[("classattr", id(c.node), name)]
+                        if isinstance(gv, (FuncVal, PropertyVal)):
+                            raise Unsupported("method/property %s rebound on a class at run time" % name)
+                        dg = _descriptor_method(I, st, gv, "__get__")
+                        if dg is not None:
+                            # descriptor protocol: type(obj).attr.__get__(obj, type(obj))
+                            yield from I.call(dg, [gv, v, e.cls], {}, st)
+                            return
+                        yield st, gv
+                        return
+                    if where is not None and c == where:
+                        break  # the first class that defines the name statically wins over rebindings further up
             if isinstance(m, PropertyVal):
                 yield from I.call(m.fget, [v], {}, st)
                 return
@@ -123,6 +139,17 @@ def getattr(I, st, v, name):
     if isinstance(v, HeapSeq):
         yield st, heapseq_method(I, st, v, name)
         return
+    if isinstance(v, ObjDict):
+        yield st, objdict_method(I, st, v, name)
+        return
+    if isinstance(v, RePattern) and name in ("match", "fullmatch", "search"):
+        def _rx(I, st, a, k):
+            if len(a) != 1 or not isinstance(a[0], str):
+                raise Unsupported("regular expression applied to a symbolic string")
+            yield st, (ReMatch() if _b.getattr(v.rx, name)(a[0]) is not None else None)
+
+        yield st, bi("re.Pattern." + name, _rx)
+        return
     if isinstance(v, ModuleVal):
         yield st, module_attr(I, st, v, name)
         return
@@ -137,6 +164,9 @@ def getattr(I, st, v, name):
             yield st, enum_member(I, st, v, name)
             return
         m, where = I.class_lookup(v, name)
+        if m is None and where is not None:
+            yield st, None  # a class attribute whose value is None
+            return
         if m is None and name == "__init__":
             # Class.__init__(obj) of a class that defines none: object.__init__, which accepts the instance only
             if any(isinstance(c, BuiltinClass) and c.name != "object" for c in I.mro(v)):
@@ -174,6 +204,30 @@ def getattr(I, st, v, name):
                 st.get(st.get(a[0]).attrs["__list__"]).items[:] = items
                 yield st, None
             yield st, bi("list.__init__", _list_init)
+            return
+        if v.name == "object" and name == "__setattr__":
+            # object.__setattr__(obj, name, value): the default attribute store (bypasses a __setattr__ override);
+            # a property / descriptor of that name on the class would intercept it -> outside the model
+            def _osa(I, st, a, k):
+                obj, nm, val = a
+                if not isinstance(nm, str):
+                    raise Unsupported("object.__setattr__ with symbolic name")
+                if isinstance(obj, Ref) and st.get(obj).kind == "obj":
+                    from .values import PropertyVal
+
+                    g, _ = I.class_lookup(st.get(obj).cls, nm)
+                    if isinstance(g, PropertyVal) or (isinstance(g, FuncVal) and "property" in g.decorators()) or (
+                            isinstance(g, Ref) and st.get(g).kind == "obj" and I.class_lookup(st.get(g).cls, "__set__")[0] is not None):
+                        raise Unsupported("object.__setattr__ on a property/descriptor attribute")
+                    gv = _ghost_class_attr(I, st, st.get(obj).cls, nm)
+                    ds = _descriptor_method(I, st, gv, "__set__") if gv is not None else None
+                    if ds is not None:
+                        for st1, r in I.call(ds, [gv, obj, val], {}, st):
+                            yield st1, (r if isinstance(r, Exc) else None)
+                        return
+                yield from setattr(I, st, obj, nm, val, raw=True)
+
+            yield st, bi("object.__setattr__", _osa)
             return
         raise Unsupported("attribute %s of builtin class %s" % (name, v.name))
     if isinstance(v, SuperVal):
@@ -291,6 +345,16 @@ def getattr(I, st, v, name):
     if isinstance(v, BoundMethod) and name == "__name__":
         yield st, v.func.name
         return
+    if isinstance(v, Builtin) and v.name == "itertools.chain" and name == "from_iterable":
+        # itertools.chain.from_iterable(it): the elements of each element of `it`, in order (evaluated eagerly)
+        def _from_iterable(I, st, a, k):
+            out = []
+            for x in I.iterate(a[0], st):
+                out.extend(I.iterate(x, st))
+            yield st, st.alloc(ListE(out))
+
+        yield st, bi("itertools.chain.from_iterable", _from_iterable)
+        return
     if is_boollike(v) and name == "__bool__":
         yield st, simple("bool.__bool__", lambda I, st: v)
         return
@@ -322,8 +386,37 @@ def getattr(I, st, v, name):
     raise Unsupported("attribute %s of %r" % (name, v))
 
 
+def _descriptor_method(I, st, val, which):
+    """`which` (__get__/__set__/__delete__) of a store object used as a class attribute, or None"""
+    if isinstance(val, Ref) and st.get(val).kind == "obj":
+        m, _ = I.class_lookup(st.get(val).cls, which)
+        return m
+    return None
+
+
+def _ghost_class_attr(I, st, cls, name):
+    """value of a class attribute rebound at run time that an instance of cls sees (nearest class first), else None"""
+    if not st.ghost:
+        return None
+    _, where = I.class_lookup(cls, name)
+    for c in I.mro(cls):
+        if isinstance(c, ClassVal) and ("classattr", id(c.node), name) in st.ghost:
+            return st.ghost[("classattr", id(c.node), name)]
+        if where is not None and c == where:
+            return None
+    return None
+
+
+def _ghost_data_descriptor(I, st, cls, name):
+    gv = _ghost_class_attr(I, st, cls, name)
+    return gv is not None and _descriptor_method(I, st, gv, "__set__") is not None
+
+
 def class_attr_for_instance(I, st, inst, cls, name):
     m, where = I.class_lookup(cls, name)
+    if m is None and where is not None:
+        yield st, None  # a class attribute whose value is None
+        return
     if m is None:
         if name == "__class__":
             yield st, cls
@@ -413,6 +506,12 @@ def setattr(I, st, obj, name, v, raw=False):
             m, _ = I.class_lookup(e.cls, name + ".setter")
             if m is not None:
                 for st1, r in I.call(m, [obj, v], {}, st):
+                    yield st1, (r if isinstance(r, Exc) else None)
+                return
+            gv = _ghost_class_attr(I, st, e.cls, name)
+            ds = _descriptor_method(I, st, gv, "__set__") if gv is not None else None
+            if ds is not None:
+                for st1, r in I.call(ds, [gv, obj, v], {}, st):
                     yield st1, (r if isinstance(r, Exc) else None)
                 return
             g, _ = I.class_lookup(e.cls, name)
@@ -535,7 +634,10 @@ def list_method(I, st, ref, name):
 
     def sort(I, st, a, k):
         for st1, r in sorted_values(I, st, L(st), k.get("key"), k.get("reverse", False)):
-            if isinstance(r, Exc):
+            if isinstance(r, SortFailed):
+                st1.get(ref).items[:] = r.arrangement  # the list keeps the partially sorted arrangement
+                yield st1, r.exc
+            elif isinstance(r, Exc):
                 yield st1, r
             else:
                 st1.get(ref).items[:] = r
@@ -636,7 +738,7 @@ def sorted_values(I, st, items, key=None, reverse=False):
         return
     if all(is_number(k) for k in keys) or all(isinstance(k, tuple) for k in keys):
         # symbolic numbers / tuples (compared lexicographically, element by element): same scheme, `<` by key_lt
-        yield from sort_objects(I, cur, items, keys, reverse, lt_fn=key_lt)
+        yield from sort_by_pairs(I, cur, items, keys, reverse, lt_fn=key_lt)
         return
     raise Unsupported("sorting symbolic keys")
 
@@ -664,7 +766,7 @@ def obj_lt(I, st, k):
     return isinstance(k, Ref) and st.get(k).kind == "obj" and I.class_lookup(st.get(k).cls, "__lt__")[0] is not None
 
 
-def sort_objects(I, st, items, keys, reverse, lt_fn=None):
+def sort_by_pairs(I, st, items, keys, reverse, lt_fn=None):
     """sorted() of objects whose class defines __lt__ (keys[i] is the object compared for items[i]).  Every ordered
     pair is compared with the class's __lt__ (forking on symbolic outcomes); if the outcomes form a strict weak
     order the result is THE stable sorted permutation (A3), which is what CPython's sort returns for any consistent
@@ -716,6 +818,99 @@ def sort_objects(I, st, items, keys, reverse, lt_fn=None):
         order = sorted(range(n), key=lambda i: (sum(1 for j in range(n) if j != i and lt[(j, i)]), i))
         I.trust("sorted", "A3: sorted/list.sort is the stable ordering permutation w.r.t. <")
         yield s, [items[i] for i in order]
+
+
+class SortFailed:
+    """a comparison raised during list.sort(): the exception and the arrangement the list is left in"""
+
+    def __init__(self, exc_val, arrangement):
+        self.exc, self.arrangement = exc_val, arrangement
+
+
+def sort_objects(I, st, items, keys, reverse):
+    """list.sort / sorted over objects compared by their own __lt__ (symbolic outcomes fork): the EXACT sequence of
+    comparisons CPython (3.8-3.12) makes for fewer than 64 elements - count the initial run (strictly descending runs are
+    reversed), then binary insertion of the remaining elements.  No assumption that __lt__ is a consistent order.
+    yields (state, list) or (state, SortFailed) when a comparison raises."""
+    M = _m()
+    items, keys = list(items), list(keys)  # snapshots: the caller's list is rewritten per path while other paths are still pending
+    n = len(items)
+    if reverse:
+        raise Unsupported("sorting objects by __lt__ with reverse=True")
+    if n >= 64:
+        raise Unsupported("sorting 64 or more objects by __lt__ (merge phase not modelled)")
+    for kv in keys:
+        if M.obj_has(I, st, kv, "__gt__") is not None:
+            raise Unsupported("sorting objects whose class also defines __gt__")
+    I.trust("list.sort-objects", "A3: list.sort on < 64 objects = CPython's count_run + binary insertion sort, comparisons through __lt__ of the left operand")
+
+    def lt(s, a, b):
+        m = M.obj_has(I, s, keys[a], "__lt__")
+        for s1, r in list(I.call(m, [keys[a], keys[b]], {}, s)):
+            if isinstance(r, Exc):
+                yield s1, r
+                continue
+            if isinstance(r, Opaque):
+                raise Unsupported("__lt__ returned NotImplemented / an uninterpreted value during sort")
+            for s2, b2 in I.branch(s1, I.truth(r, s1)):
+                yield s2, b2
+
+    def run_len(s, idx, k, descending):
+        """idx[:k] is a run; extend it"""
+        if k == n:
+            yield s, k
+            return
+        for s1, r in lt(s, idx[k], idx[k - 1]):
+            if isinstance(r, Exc):
+                yield s1, r
+            elif bool(r) == descending:
+                yield from run_len(s1, idx, k + 1, descending)
+            else:
+                yield s1, k
+
+    def search(s, idx, pivot, l, r):
+        if not (l < r):
+            yield s, l
+            return
+        p = l + ((r - l) >> 1)
+        for s1, res in lt(s, pivot, idx[p]):
+            if isinstance(res, Exc):
+                yield s1, res
+            elif res:
+                yield from search(s1, idx, pivot, l, p)
+            else:
+                yield from search(s1, idx, pivot, p + 1, r)
+
+    def binsort(s, idx, start):
+        if start >= n:
+            yield s, idx
+            return
+        pivot = idx[start]
+        for s1, l in search(s, idx, pivot, 0, start):
+            if isinstance(l, Exc):
+                yield s1, SortFailed(l, idx)
+                continue
+            yield from binsort(s1, idx[:l] + [pivot] + idx[l:start] + idx[start + 1:], start + 1)
+
+    idx0 = list(range(n))
+    if n < 2:
+        yield st, list(items)
+        return
+    for s1, r in lt(st, 1, 0):
+        if isinstance(r, Exc):
+            yield s1, SortFailed(r, [items[i] for i in idx0])
+            continue
+        descending = bool(r)
+        for s2, k in run_len(s1, idx0, 2, descending):
+            if isinstance(k, Exc):
+                yield s2, SortFailed(k, [items[i] for i in idx0])
+                continue
+            idx = (idx0[:k][::-1] + idx0[k:]) if descending else list(idx0)
+            for s3, res in binsort(s2, idx, k):
+                if isinstance(res, SortFailed):
+                    yield s3, SortFailed(res.exc, [items[i] for i in res.arrangement])
+                else:
+                    yield s3, [items[i] for i in res]
 
 
 def dict_method(I, st, ref, name):
@@ -1284,6 +1479,8 @@ def make_builtins(I):
             yield st, v.length()
         elif isinstance(v, HeapSeq):
             yield st, v.length(I, st)
+        elif isinstance(v, ObjDict):
+            yield st, len(v.attrs(st))
         elif isinstance(v, Ref):
             e = st.get(v)
             if e.kind in ("list", "deque", "set", "dict"):
@@ -1470,6 +1667,8 @@ def make_builtins(I):
             return
         items = I.iterate(a[0], st)
         for st1, r in sorted_values(I, st, items, k.get("key"), k.get("reverse", False)):
+            if isinstance(r, SortFailed):
+                r = r.exc
             yield st1, (r if isinstance(r, Exc) else st1.alloc(ListE(r)))
 
     add("sorted", _sorted)
@@ -1604,6 +1803,16 @@ def make_builtins(I):
 
     add("setattr", _setattr)
 
+    def _delattr(I, st, a, k):
+        if not isinstance(a[1], str):
+            raise Unsupported("delattr with symbolic name")
+        if isinstance(a[0], Ref) and st.get(a[0]).kind == "obj":
+            if I.class_lookup(st.get(a[0]).cls, "__delattr__")[0] is not None or _ghost_class_attr(I, st, st.get(a[0]).cls, a[1]) is not None:
+                raise Unsupported("delattr through __delattr__ / a descriptor")
+        yield from delattr(I, st, a[0], a[1])
+
+    add("delattr", _delattr)
+
     def _callable(I, st, a, k):
         yield st, isinstance(a[0], (FuncVal, BoundMethod, Builtin, ClassVal, BuiltinClass))
 
@@ -1677,6 +1886,88 @@ def make_builtins(I):
 
     speclib.install(I, B)
     return B
+
+
+class RePattern:
+    """re.compile(literal): match/fullmatch/search on CONCRETE strings are decided by Python's re; only the truth value
+    of the result (a match or None) is available"""
+
+    def __init__(self, pattern):
+        import re as _re
+
+        self.pattern, self.rx = pattern, _re.compile(pattern)
+
+
+class ReMatch:
+    """a successful match (truthy); its groups are not modelled"""
+
+
+class ObjDict:
+    """obj.__dict__: a LIVE view of the instance attributes of a store object (reads and writes go to the object,
+    bypassing __setattr__ / properties, as in Python)"""
+
+    def __init__(self, ref):
+        self.ref = ref
+
+    def attrs(self, st):
+        return st.get(self.ref).attrs
+
+
+def objdict_method(I, st, od, name):
+    def key(x):
+        if not isinstance(x, str):
+            raise Unsupported("__dict__ access with a non-string key")
+        return x
+
+    def copy(I, st, a, k):
+        yield st, st.alloc(DictE(dict(od.attrs(st))))
+
+    def update(I, st, a, k):
+        if a:
+            src = a[0]
+            if isinstance(src, ObjDict):
+                items = dict(src.attrs(st))
+            elif isinstance(src, Ref) and st.get(src).kind == "dict":
+                items = dict(st.get(src).items)
+            else:
+                raise Unsupported("__dict__.update from %r" % (src,))
+            for kk, vv in items.items():
+                od.attrs(st)[key(kk)] = vv
+        for kk, vv in k.items():
+            od.attrs(st)[kk] = vv
+        yield st, None
+
+    def get(I, st, a, k):
+        yield st, od.attrs(st).get(key(a[0]), a[1] if len(a) > 1 else None)
+
+    def items(I, st, a, k):
+        yield st, st.alloc(ListE([(kk, vv) for kk, vv in od.attrs(st).items()]))
+
+    def keys(I, st, a, k):
+        yield st, st.alloc(ListE(list(od.attrs(st))))
+
+    def values(I, st, a, k):
+        yield st, st.alloc(ListE(list(od.attrs(st).values())))
+
+    tbl = dict(copy=copy, update=update, get=get, items=items, keys=keys, values=values)
+    if name not in tbl:
+        raise Unsupported("__dict__ method " + name)
+    return bi("__dict__." + name, tbl[name])
+
+
+class PickleBlob:
+    """result of pickle.dumps(plain data): an immutable bytes object whose content is only read by pickle.loads"""
+
+    def __init__(self, payload):
+        self.payload = payload
+
+    def __eq__(self, other):
+        if other is self:
+            return True
+        raise Unsupported("== on pickled bytes")
+
+    def __hash__(self):
+        return id(self)
 
 
 class SymSetOf:
@@ -2037,6 +2328,44 @@ def make_ext_modules(I):
         yield st, dc(a[0])
 
     E["copy"] = {"copy": bi("copy.copy", cp_copy), "deepcopy": bi("copy.deepcopy", cp_deepcopy)}
+
+    # ---- pickle of PLAIN DATA only: numbers, bool, None, str, bytes, earlier pickles, tuples/lists/dicts/sets/arrays of these.
+    # dumps() freezes a structurally equal, disjoint copy; loads() hands out a fresh copy of it.  Anything else
+    # (instances, functions, classes) is outside the model -> Unsupported.
+    def _plain_copy(st, v, what):
+        from . import bytesmodel
+
+        if v is None or isinstance(v, (bool, int, Fraction, str, bytes, PickleBlob, bytesmodel.BytesVal)) or is_z3(v):
+            if is_z3(v) and not (z3.is_int(v) or z3.is_real(v) or z3.is_bool(v)):
+                raise Unsupported("%s of a term of sort %s" % (what, v.sort()))
+            return v
+        if isinstance(v, tuple) and type(v) is tuple:
+            return tuple(_plain_copy(st, x, what) for x in v)
+        if isinstance(v, Ref):
+            e = st.get(v)
+            if e.kind == "list":
+                return st.alloc(ListE([_plain_copy(st, x, what) for x in e.items]))
+            if e.kind == "dict" and getattr_py(e, "default_factory") is None:
+                return st.alloc(DictE({_plain_copy(st, kk, what): _plain_copy(st, x, what) for kk, x in e.items.items()}))
+            if e.kind == "set":
+                return st.alloc(SetE([_plain_copy(st, x, what) for x in e.items]))
+            if e.kind == "nd":
+                return st.alloc(NdE(e.shape, [_plain_copy(st, x, what) for x in e.data]))
+        if isinstance(v, ClassVal) and what == "pickle":
+            # classes are pickled by reference (module-level name): the same class object comes back
+            return v
+        raise Unsupported("%s of %r (only plain data is modelled)" % (what, v))
+
+    def pk_dumps(I, st, a, k):
+        I.trust("pickle", "A6: pickle.loads(pickle.dumps(x)) of plain data (numbers, None, str, bytes, containers of these) is a structurally equal, disjoint copy")
+        yield st, PickleBlob(_plain_copy(st, a[0], "pickle"))
+
+    def pk_loads(I, st, a, k):
+        if not isinstance(a[0], PickleBlob):
+            raise Unsupported("pickle.loads of something that is not a modelled pickle.dumps result")
+        yield st, _plain_copy(st, a[0].payload, "pickle")
+
+    E["pickle"] = {"dumps": bi("pickle.dumps", pk_dumps), "loads": bi("pickle.loads", pk_loads)}
     from .values import Partial
 
     E["functools"] = {"partial": bi("functools.partial", lambda I, st, a, k: iter([(st, Partial(a[0], a[1:], k))])),
@@ -2053,6 +2382,13 @@ def make_ext_modules(I):
     # string: only the constant alphabets (exact values of CPython's string module)
     E["string"] = {n: _b.getattr(_string, n) for n in ("ascii_uppercase", "ascii_lowercase", "ascii_letters", "digits", "hexdigits",
                                                        "octdigits", "punctuation", "whitespace", "printable")}
+
+    def re_compile(I, st, a, k):
+        if not isinstance(a[0], str) or k or len(a) > 1:
+            raise Unsupported("re.compile of a non-literal pattern / with flags")
+        yield st, RePattern(a[0])
+
+    E["re"] = {"compile": bi("re.compile", re_compile)}
     E["warnings"] = {"warn": bi("warnings.warn", lambda I, st, a, k: iter([(st, None)]))}
 
     from . import npmodel, bytesmodel
